@@ -34,8 +34,17 @@ def capture(fac, options=None):
     fac._create_lexer, fac._create_parser = create_lexer, create_parser
     try:
         engine = fac.create(options)
+        if 'table' not in cap:
+            # the factory did not build its grammar inside create(): make the engine do it now, while the hooks are
+            # still in place (what it builds THEN is what this engine parses with)
+            try:
+                engine('1')
+            except Exception:       # noqa
+                pass
     finally:
         del fac._create_lexer, fac._create_parser
+    if 'table' not in cap:
+        raise RuntimeError('the factory built no operator table while creating an engine')
     cap['operators'] = [tuple(r) for r in fac.operators]
     cap['delegates'] = bool(fac.allow_delegates)
     return engine, cap
